@@ -152,6 +152,7 @@ def run_shard(spec, res):
     elif what == 'real':
         run_real(spec, res)
     elif what == 'slow':
+        run_active_neighbours(spec, res)
         run_slow_consumer(spec, res)
     else:
         run_proc(spec, res)
@@ -174,6 +175,26 @@ def run_real(spec, res):
         mp, ms = conc.readahead(sc, r)
         res.maximum(f'real_pulled_minus_delivered:{entry}:b{b}', mp)
         res.case(('real', conc.trace_hash(r['events'])), mp >= b)
+
+
+def run_active_neighbours(spec, res):
+    """Real threads: the iterator under test is suspended after one example
+    while four other prefetching datasets are consumed completely, then it is
+    read slowly.  What those others hand over must not move its producer."""
+    from .. import realthreads as rt
+    conc.env(shim=False)
+    for entry, b, w in (('pf1', 2, 1), ('pf1', 1, 1), ('pft', 2, 2), ('parmap', 3, 2),
+                        ('chain', 2, 2)):
+        sc = cs.make(entry, 40, b, w)
+        sc['neighbour'] = 'active'
+        sc['consumer_wait'] = 0.02
+        sc['stop'] = ['close', 4]
+        r = rt.run(sc, 11)
+        res.count('active_neighbour_executions')
+        conc.judge_readahead(sc, r, res, inflight=1)
+        mp, ms = conc.readahead(sc, r)
+        res.maximum(f'active_neighbours_pulled_minus_delivered:{entry}:b{b}', mp)
+        res.case(('active-neighbours', entry, b, w), True)
 
 
 def run_slow_consumer(spec, res):
